@@ -410,6 +410,15 @@ def optimize_circuit(seq):
     return DAG_to_list(DAG)
 
 
+def measurement_options(op):
+    """Post-selection value and dark counts of a measurement, in a form that can be compared
+    (``(None, None)`` for operations without these options)."""
+    return tuple(
+        None if v is None else np.asarray(v).tolist()
+        for v in (getattr(op, "select", None), getattr(op, "dark_counts", None))
+    )
+
+
 def program_equivalence(prog1, prog2, compare_params=True, atol=1e-6, rtol=0):
     r"""Checks if two programs are equivalent.
 
@@ -472,7 +481,8 @@ def program_equivalence(prog1, prog2, compare_params=True, atol=1e-6, rtol=0):
                 if np.allclose(bs_params, [np.pi / 4, np.pi / 2]):
                     wires = sorted(wires)
 
-            wire_mapping[i] = (wires, getattr(n.op, "dagger", False))
+            # a measurement is also matched on its post-selection value and dark counts
+            wire_mapping[i] = (wires, getattr(n.op, "dagger", False), measurement_options(n.op))
 
         # add node attributes to store the operation wires
         nx.set_node_attributes(circuit[-1], wire_mapping, name="w")
